@@ -558,27 +558,38 @@ class BranchBuilder(AstVisitor[None]):
     def visit_Compare(
         self, node: ast.Compare, bb: BB, true_bb: BB, false_bb: BB
     ) -> None:
-        # Support chained comparisons, e.g. `x <= 5 < y` by compiling to `x <= 5 and
-        # 5 < y`. This way we get short-circuit evaluation for free.
+        # Support chained comparisons, e.g. `x <= 5 < y`, by compiling to a sequence of
+        # short-circuiting comparisons `x <= 5` and `5 < y`. The operands in the middle
+        # occur in two comparisons but must only be evaluated once, so they are bound to
+        # temporaries (unless they are names or constants, which have no side effects).
         if len(node.comparators) > 1:
-            comparators = [node.left, *node.comparators]
-            values = [
-                ast.Compare(
-                    left=left,
-                    ops=[op],
-                    comparators=[right],
-                    lineno=left.lineno,
-                    col_offset=left.col_offset,
-                    end_lineno=right.end_lineno,
-                    end_col_offset=right.end_col_offset,
-                )
-                for left, op, right in zip(
-                    comparators[:-1], node.ops, comparators[1:], strict=True
-                )
-            ]
-            conj = ast.BoolOp(op=ast.And(), values=values)
-            set_location_from(conj, node)
-            self.visit_BoolOp(conj, bb, true_bb, false_bb)
+
+            def simple(e: ast.expr) -> bool:
+                return isinstance(e, ast.Name | ast.Constant)
+
+            def bind(e: ast.expr, bb: BB) -> tuple[ast.expr, BB]:
+                e, bb = ExprBuilder.build(e, self.cfg, bb)
+                tmp = next(tmp_vars)
+                ExprBuilder._tmp_assign(tmp, e, bb)
+                return make_var(tmp, e), bb
+
+            left = node.left
+            links = list(zip(node.ops, node.comparators, strict=True))
+            for i, (op, right) in enumerate(links):
+                is_last = i == len(links) - 1
+                if not is_last and not simple(right):
+                    # Keep the left-to-right evaluation order: the left operand has to
+                    # be evaluated before the statement binding the right one
+                    if not simple(left):
+                        left, bb = bind(left, bb)
+                    right, bb = bind(right, bb)
+                cmp = ast.Compare(left=left, ops=[op], comparators=[right])
+                set_location_from(cmp, node)
+                cmp.lineno, cmp.col_offset = left.lineno, left.col_offset
+                cmp.end_lineno, cmp.end_col_offset = right.end_lineno, right.end_col_offset
+                next_bb = true_bb if is_last else self.cfg.new_bb()
+                self.generic_visit(cmp, bb, next_bb, false_bb)
+                left, bb = right, next_bb
         else:
             self.generic_visit(node, bb, true_bb, false_bb)
 
